@@ -91,6 +91,8 @@ class Gen:
         if bs is None:
             return names
         out = [n for n in names if n in bs]
+        if "<builtin>norm_2" in bs:
+            out = out + ["<builtin>norm_2", "<builtin>norm_2"]    # inexact: only where values are not compared
         return out or ["<builtin>len"]
 
     def choice(self, seq):
@@ -557,6 +559,13 @@ class Gen:
         others = [b for b in arrs if b != a]
         rhs = self.real_expr(2)
         rhs = strip_reads_of(rhs, a)
+        if self.p["calls"] and self.p["nested_calls"] and self.loop_env and self.chance(25):
+            # a call argument that starts with the (integer) loop counter: the rewriting passes turn it
+            # into an unsubscripted temporary inside the loop, whose kind must come out real
+            lv0 = self.choice(sorted(self.loop_env))
+            mixed = normal([self.choice(["sum", "sum", "prod"]), V(lv0), C(self.choice([0.5, 1.5, 0.25, 2.5]))])
+            rhs = normal(["sum", rhs, ["call", "<func>g", [mixed], {}]])
+            self.features.add("counter_first_arg")
         if self.chance(35):
             rhs = normal(["sum", ["sub", V(a), [idx]], rhs])
             self.features.add("self_update")
